@@ -67,18 +67,18 @@ klass('_LSHNearest',
            '[C11,lsh.def] is_none(self.decisions) or (%s)' % LSH_DEF,
            '[C11,lsh.shape] is_none(self.decisions) or (%s)' % LSH_SHAPE])
 
-# the two functions whose loops (a dictionary comprehension drawing from the generator per key; joblib maps over chunks
-# and over np.unique of the hash values with writes into the nested dictionaries) are outside PyVC's reach: their
-# contracts are ASSUMED here and exercised by the bounded leg (rt C11, C05, C06, C07); listed as trusted in the evidence
-fn('approximate._LSHNearest._initialize', props='C11 C07', trusted=True,
+# _fit_operation (joblib maps over chunks and over np.unique of the hash values, with writes into the nested
+# dictionaries) is outside PyVC's reach: its contract is ASSUMED here and exercised by the bounded leg (rt C11, C05, C06,
+# C07); it is listed as trusted in the evidence
+fn('approximate._LSHNearest._initialize', props='C11 C07 C04',
    params={'n_cols': 'int'},
-   requires=['INV.lsh.tables'],
-   modifies=[PLN + '[*]', TAB + '[*]', 'self.rng.rng.state'],
+   requires=['INV.lsh.tables', 'n_cols >= 0'],
+   modifies=[PLN, TAB, 'self.rng.rng.state'],         # both dictionaries are replaced by new objects
    ensures=['INV.lsh.tables',
             '[C11,init.shape] forall_int(lambda k: implies(0 <= k and k < self.n_tables, rows(plane(%s, k)) == n_cols and '
             'cols(plane(%s, k)) == self.n_dimensions))' % (PLN, PLN),
-            '[C07,init.empty] forall_int(lambda k: forall_real(lambda h: slen(bucket(%s, k, h)) == 0))' % TAB],
-   note='trusted: dictionary comprehension with one generator draw per key')
+            # C07: nothing of an earlier fit survives in the tables
+            '[C07,init.empty] forall_int(lambda k: forall_real(lambda h: slen(bucket(%s, k, h)) == 0))' % TAB])
 fn('approximate._LSHNearest._fit_operation', props='C11 C05 C06', trusted=True,
    params={'contexts': 'mat', 'context_start': 'int'},
    requires=['INV.lsh.tables', 'context_start >= 0'],
@@ -114,7 +114,7 @@ fn('approximate._ApproximateNeighbors.fit', cls='_LSHNearest', props='C03 C06 C0
    params=NB_FIT,
    requires=['INV~hist~lsh', 'INV.lsh.tables', 'slen(decisions) == slen(rewards)', 'rows(contexts) == slen(decisions)',
              'cols(contexts) >= 1', TS_IN],
-   modifies=['self.decisions', 'self.contexts', 'self.rewards', 'self.lp.is_contextual_binarized?', PLN + '[*]', TAB + '[*]',
+   modifies=['self.decisions', 'self.contexts', 'self.rewards', 'self.lp.is_contextual_binarized?', PLN, TAB, TAB + '[*]',
              'self.rng.rng.state'],
    # C07 / C11: after fit the tables list exactly the rows of the new history
    ensures=['INV', '[C03,C07,hist.d] self.decisions == decisions', '[C03,C07,hist.x] self.contexts == contexts',
@@ -150,3 +150,4 @@ fn('approximate._ApproximateNeighbors._predict_contexts', cls='_LSHNearest', pro
 # BaseMAB._parallel_predict is verified for Radius / KNearest receivers (same code); with the LSH row term the chunk
 # flattening obligation (post:rows) is beyond the solver's resource limit, so no contract is claimed for the LSH receiver:
 # row locality *within* a chunk is the contract above, independence of the chunking for LSH is left to the bounded leg.
+
